@@ -1,7 +1,7 @@
 ENTRY = {
     "C13": {
         "pkg": ".", "hdir": "dastard", "harness": DASTARD_COMMON + ["zz_verif_files_test.go", "zz_verif_c13_test.go"], "test": "TestVerifC13",
-        "quick": T(16, 60), "thorough": T(16, 600),
+        "quick": T(16, 150), "thorough": T(16, 600),
         "rule": "one execution = one (npre, nsamp, signedness, record contents, projector/basis set) pushed through the real SetProjectorsBasis / AnalyzeData / "
                 "messageSummaries (OFF family: real SetOFF / PublishData, file decoded); oracle = 256-bit math/big evaluation of the definitions "
                 "(mean, least-squares slope x (npre-1), post-trigger mean / rms / max relative to the pretrigger mean, P x, population std of x - B P x); "
